@@ -812,6 +812,20 @@ func (s *Silences) indexSilence(sil *pb.Silence) {
 	}
 }
 
+// reindexSilence is called when a replicated update changed a silence that is
+// already indexed. It moves the silence to the end of the version index under a
+// new version, so that caches built against an older version (which may have
+// dropped the silence when it expired) evaluate it again.
+func (s *Silences) reindexSilence(sil *pb.Silence) {
+	for i, sv := range s.vi {
+		if sv.id == sil.Id {
+			s.vi = append(s.vi[:i], s.vi[i+1:]...)
+			break
+		}
+	}
+	s.indexSilence(sil)
+}
+
 func (s *Silences) getSilence(id string) (*pb.Silence, bool) {
 	msil, ok := s.st[id]
 	if !ok {
@@ -1319,6 +1333,8 @@ func (s *Silences) Merge(b []byte) error {
 		if merged {
 			if added {
 				s.indexSilence(e.Silence)
+			} else {
+				s.reindexSilence(e.Silence)
 			}
 			if !cluster.OversizedMessage(b) {
 				// If this is the first we've seen the message and it's
